@@ -125,7 +125,7 @@ def parse_field(name, mod, exp):
            r'let mut value = \*value; '
            r'(if value >= (.+?) \{ value -= (.+?); \} else \{ return Err\(RtcmError::OutOfRange\); \} )?'
            r'(value /= (.+?); )?'
-           r'(if (true|false) \{ value \+= if value >= 0\.0 \{ 0\.5 \} else \{ -0\.5 \}; \} )?'
+           r'(if (true|false) \{ value \+= if value (>=|>) 0\.0 \{ (-?[0-9.eE_]+) \} else \{ (-?[0-9.eE_]+) \}; \} )?'
            r'let value = value as <(\w+) as BitValue>::ValueType; asm\.put::<(\w+)>\(value, (\d+)\)$')
     m = re.match(pat, enc)
     if not m:
@@ -136,7 +136,8 @@ def parse_field(name, mod, exp):
     f.enc_bias2 = m.group(7)
     f.enc_res = m.group(9)
     f.round = (m.group(11) == 'true') if m.group(10) else None
-    f.enc_cast_it, f.enc_it, f.enc_len = m.group(12), m.group(13), int(m.group(14))
+    f.round_op, f.round_pos, f.round_neg = m.group(12), m.group(13), m.group(14)
+    f.enc_cast_it, f.enc_it, f.enc_len = m.group(15), m.group(16), int(m.group(17))
     f.is_float = f.dt in ('f32', 'f64')
     if not f.is_float and f.dt not in INT_TYPES:
         raise ToolLimit('df %s: unsupported data type %s' % (name, f.dt))
